@@ -101,14 +101,14 @@ def run_seeded(prop, rule_names, scratch, repo='/repo'):
     return summary, broken
 
 
-def run_refactors(prop, rule_names, scratch, repo='/repo'):
+def run_refactors(prop, rule_names, scratch, repo='/repo', site_files=None):
     """Negative regression: with any of the behaviour-preserving refactorings under refactor/ applied to a
     scratch copy, the property's rules report no violation and lose no floor/anchor."""
     import subprocess
     import re
     import vcheck
     import rules as R
-    summary = {'patches': 0, 'applied': 0, 'silent': 0, 'skipped': [], 'alarmed': []}
+    summary = {'patches': 0, 'applied': 0, 'silent': 0, 'skipped': [], 'alarmed': [], 'not_touching_any_site_file': 0}
     broken = []
     rdir = os.path.join(HERE, 'refactor')
     if not os.path.isdir(rdir):
@@ -119,6 +119,17 @@ def run_refactors(prop, rule_names, scratch, repo='/repo'):
         if not os.path.exists(pf):
             continue
         summary['patches'] += 1
+        if site_files is not None:
+            # a patch can only change the verdict at sites in the files it edits: skip patches that touch no file in
+            # which this property's rules have a site on the current tree (all record kinds, before attribution)
+            touched = set()
+            with open(pf) as f_:
+                for line in f_:
+                    if line.startswith('+++ b/'):
+                        touched.add(line[6:].strip())
+            if not any(t == sf or sf.endswith('/' + t) or t.endswith(sf) for t in touched for sf in site_files):
+                summary['not_touching_any_site_file'] += 1
+                continue
         root = os.path.join(scratch, 'refac-' + pid, 'repo')
         copy_tree(repo, root)
         r = subprocess.run(['patch', '-p1', '-s', '-d', root, '-i', pf], stdout=subprocess.PIPE, stderr=subprocess.STDOUT, text=True)
